@@ -148,7 +148,44 @@ class _Shape(ast.NodeTransformer):
         for fld in ('body', 'orelse', 'finalbody'):
             b = getattr(node, fld, None)
             if isinstance(b, list) and b and isinstance(b[0], ast.stmt):
-                setattr(node, fld, self._flatten(self._strip(b)))
+                setattr(node, fld, self._flatten(self._locks(self._strip(b))))
+        return node
+
+    def _locks(self, body):
+        """`X.acquire(); try: B finally: X.release()`  ->  `with X: B`   (and the awaited asyncio form -> `async with X: B`)"""
+        out = []
+        i = 0
+        while i < len(body):
+            st = body[i]
+            nxt = body[i + 1] if i + 1 < len(body) else None
+            call = None
+            is_async = False
+            if isinstance(st, ast.Expr):
+                v = st.value
+                if isinstance(v, ast.Await):
+                    v, is_async = v.value, True
+                if isinstance(v, ast.Call) and isinstance(v.func, ast.Attribute) and v.func.attr == 'acquire' and not v.args and not v.keywords and _plain(v.func.value):
+                    call = v
+            if call is not None and isinstance(nxt, ast.Try) and not nxt.handlers and not nxt.orelse and len(nxt.finalbody) == 1:
+                fin = nxt.finalbody[0]
+                if isinstance(fin, ast.Expr) and isinstance(fin.value, ast.Call) and isinstance(fin.value.func, ast.Attribute) and fin.value.func.attr == 'release' \
+                        and not fin.value.args and ast.dump(fin.value.func.value) == ast.dump(call.func.value):
+                    item = ast.withitem(context_expr=call.func.value, optional_vars=None)
+                    w = (ast.AsyncWith if is_async else ast.With)(items=[item], body=nxt.body)
+                    out.append(ast.copy_location(w, st))
+                    i += 2
+                    continue
+            out.append(st)
+            i += 1
+        return out
+
+    def visit_With(self, node):
+        self.generic_visit(node)
+        # `with a, b:` is `with a: with b:`
+        while len(node.items) > 1:
+            inner = ast.copy_location(ast.With(items=node.items[1:], body=node.body), node)
+            node.items = node.items[:1]
+            node.body = [inner]
         return node
 
     def _flatten(self, body):
@@ -699,7 +736,43 @@ def _tail_convert(stmts, on_return, on_falloff, seen):
     return stmts + on_falloff()
 
 
-def _inlinable(h, is_method):
+def _to_tail_form(stmts):
+    """`if c: A; return x` followed by rest  ->  `if c: A; return x  else: rest` (recursively), so that every return ends its path"""
+    out = list(stmts)
+    i = 0
+    while i < len(out):
+        st = out[i]
+        if isinstance(st, ast.If):
+            st.body = _to_tail_form(st.body)
+            st.orelse = _to_tail_form(st.orelse)
+            if i + 1 < len(out) and _ends_in_return(st.body) and not st.orelse:
+                st.orelse = _to_tail_form(out[i + 1:])
+                del out[i + 1:]
+            elif i + 1 < len(out) and st.orelse and _ends_in_return(st.orelse) and not _ends_in_return(st.body) and not _has_return(st.body):
+                st.body = st.body + _to_tail_form(out[i + 1:])
+                del out[i + 1:]
+        elif isinstance(st, (ast.With, ast.AsyncWith)):
+            st.body = _to_tail_form(st.body)
+        i += 1
+    return out
+
+
+def _ends_in_return(body):
+    if not body:
+        return False
+    last = body[-1]
+    if isinstance(last, (ast.Return, ast.Raise)):
+        return True
+    if isinstance(last, ast.If) and last.orelse:
+        return _ends_in_return(last.body) and _ends_in_return(last.orelse)
+    return False
+
+
+def _has_return(body):
+    return any(isinstance(n, ast.Return) for st in body for n in ast.walk(st) if not isinstance(n, SCOPES))
+
+
+def _inlinable(h, is_method, need_tail=True):
     if h.decorator_list or isinstance(h, ast.AsyncFunctionDef):
         return False
     a = h.args
@@ -718,10 +791,10 @@ def _inlinable(h, is_method):
     body = _strip_doc(h.body)
     if not body:
         return False
-    # every return in tail position (checked on a copy)
+    # every return in tail position (checked on a copy, after moving the code that follows a returning guard under its else)
     seen = []
-    _tail_convert(_copy.deepcopy(body), lambda r: [r], lambda: [], seen)
-    if len(seen) != len(_own_returns(h)):
+    _tail_convert(_to_tail_form(_copy.deepcopy(body)), lambda r: [r], lambda: [], seen)
+    if need_tail and len(seen) != len(_own_returns(h)):
         return False
     # not recursive
     for n in ast.walk(h):
@@ -776,7 +849,7 @@ class _Sub(ast.NodeTransformer):
 
 def _instantiate(h, binding, caller, is_method):
     """-> (prologue statements binding parameters, body copy with substituted parameters) or None"""
-    body = _copy.deepcopy(_strip_doc(h.body))
+    body = _to_tail_form(_copy.deepcopy(_strip_doc(h.body)))
     stored = set(n.id for st in body for n in ast.walk(st) if isinstance(n, ast.Name) and isinstance(n.ctx, (ast.Store, ast.Del)))
     subst, pro = {}, []
     for p, a in binding:
@@ -800,8 +873,129 @@ def _instantiate(h, binding, caller, is_method):
     return wrap.body
 
 
+def _const_truth(e):
+    if e is None:
+        return False
+    if isinstance(e, ast.Constant):
+        return bool(e.value)
+    return None
+
+
+def _guard_inline(f, h, is_method):
+    """`if [not] self.h(..): T`  (T a single return / continue / break / raise)  with a helper that returns only constants:
+    the helper body is substituted, every `return <const>` that makes the guard fire becomes T, the others fall through (they must end the helper)"""
+    n = 0
+    for body in _stmt_lists(f):
+        i = 0
+        while i < len(body):
+            st = body[i]
+            i += 1
+            if not (isinstance(st, ast.If) and not st.orelse and len(st.body) == 1 and isinstance(st.body[0], (ast.Return, ast.Continue, ast.Break, ast.Raise))):
+                continue
+            t = st.test
+            neg = isinstance(t, ast.UnaryOp) and isinstance(t.op, ast.Not)
+            call = t.operand if neg else t
+            binding = _match_call(call, h, is_method)
+            if binding is None:
+                continue
+            rets = _own_returns(h)
+            truths = [_const_truth(r.value) for r in rets]
+            if not rets or any(x is None for x in truths):
+                continue
+            stmts = _instantiate(h, binding, f, is_method)
+            T = st.body[0]
+            fire = (lambda tr: not tr) if neg else (lambda tr: tr)
+            # returns that do not fire must be in tail position; falling off the end returns None (falsy)
+            seen = []
+
+            def on_ret(r):
+                return [_copy.deepcopy(T)] if fire(_const_truth(r.value)) else []
+            new = _tail_convert(_to_tail_form(stmts), on_ret, lambda: ([_copy.deepcopy(T)] if fire(False) else []), seen)
+            allr = [x for s_ in new for x in ast.walk(s_) if isinstance(x, ast.Return) and not any(x is y or ast.dump(x) == ast.dump(T) for y in [T])]
+            # any return left over (not in tail position) must be one that fires
+            ok = True
+
+            class Fix(ast.NodeTransformer):
+                def visit_FunctionDef(s, node):
+                    return node
+
+                def visit_Lambda(s, node):
+                    return node
+
+                def visit_Return(s, node):
+                    nonlocal ok
+                    if ast.dump(node) == ast.dump(T):
+                        return node
+                    tr = _const_truth(node.value)
+                    if tr is None or not fire(tr):
+                        ok = False
+                        return node
+                    return ast.copy_location(_copy.deepcopy(T), node)
+            new = [Fix().visit(s_) for s_ in new]
+            if not ok or not new:
+                continue
+            for s_ in new:
+                for x in ast.walk(s_):
+                    if not hasattr(x, 'lineno') and isinstance(x, (ast.stmt, ast.expr)):
+                        ast.copy_location(x, st)
+            body[i - 1:i] = new
+            i += len(new) - 1
+            n += 1
+    return n
+
+
+def _hoist_calls(f, h, is_method):
+    """a call of the helper that is the first thing its statement evaluates is bound to a temporary in front of the statement"""
+    n = 0
+    for body in _stmt_lists(f):
+        i = 0
+        while i < len(body):
+            st = body[i]
+            i += 1
+            if isinstance(st, (ast.Expr, ast.Assign, ast.Return)) and _match_call(getattr(st, 'value', None), h, is_method) is not None:
+                continue            # handled directly by the statement forms
+            fe = st.value if isinstance(st, ast.AugAssign) and _pure(st.target) else _first_evaluated(st)
+            if fe is None:
+                continue
+            hits = [x for x in ast.walk(fe) if _match_call(x, h, is_method) is not None]
+            if len(hits) != 1:
+                continue
+            name = '%s_result' % h.name.lstrip('_')
+            k_ = 1
+            while _name_uses(f, name):
+                k_ += 1
+                name = '%s_result%d' % (h.name.lstrip('_'), k_)
+            idx = [k for k, x in enumerate(ast.walk(fe)) if x is hits[0]][0]
+            probe = _copy.deepcopy(fe)
+            target = list(ast.walk(probe))[idx]
+            if target is probe:
+                probe = ast.Name(id='__mark__', ctx=ast.Load())
+            else:
+                _replace_node(ast.Expression(body=probe), target, ast.Name(id='__mark__', ctx=ast.Load()))
+            if not _load_is_first(probe, '__mark__'):
+                continue
+            new_name = ast.copy_location(ast.Name(id=name, ctx=ast.Load()), hits[0])
+            if hits[0] is fe:
+                for fld in ('test', 'value', 'iter', 'exc'):
+                    if getattr(st, fld, None) is fe:
+                        setattr(st, fld, new_name)
+            else:
+                _replace_node(st, hits[0], new_name)
+            body.insert(i - 1, ast.copy_location(ast.Assign(targets=[ast.Name(id=name, ctx=ast.Store())], value=hits[0]), st))
+            i += 1
+            n += 1
+    return n
+
+
 def _inline_into(f, h, is_method):
     changed = False
+    hb_ = _strip_doc(h.body)
+    if not (len(hb_) == 1 and isinstance(hb_[0], ast.Return)):
+        if _guard_inline(f, h, is_method):
+            changed = True
+        if not _inlinable(h, is_method):
+            return changed
+        _hoist_calls(f, h, is_method)
     for _round in range(4):
         progress = False
         for body in _stmt_lists(f):
@@ -877,7 +1071,7 @@ def inline_new_helpers(tree, known):
     # new methods
     for c in classes:
         meths = [f for f in c.body if isinstance(f, (ast.FunctionDef, ast.AsyncFunctionDef))]
-        new = [f for f in meths if isinstance(f, ast.FunctionDef) and (c.name + '.' + f.name) not in known and _inlinable(f, True)]
+        new = [f for f in meths if isinstance(f, ast.FunctionDef) and (c.name + '.' + f.name) not in known and _inlinable(f, True, need_tail=False)]
         if not new:
             continue
         for _round in range(3):
@@ -894,7 +1088,7 @@ def inline_new_helpers(tree, known):
             if not refs:
                 c.body.remove(h)
     # new module-level functions
-    new = [f for f in mod_funcs if f.name not in known and _inlinable(f, False)]
+    new = [f for f in mod_funcs if f.name not in known and _inlinable(f, False, need_tail=False)]
     if new:
         everyone = [f for f in ast.walk(tree) if isinstance(f, (ast.FunctionDef, ast.AsyncFunctionDef))]
         for _round in range(3):
@@ -1006,9 +1200,9 @@ def _candidates_all(f, ref_assigns=(), ref_locals=(), changed=None):
         for i, st in enumerate(b):
             if not _near(changed, st, b[i + 1] if i + 1 < len(b) else None, b[i - 1] if i > 0 else None):
                 continue
-            # R1 nest the rest of a block under the else of a terminating guard
-            if isinstance(st, ast.If) and not st.orelse and _terminates(st.body) and i + 1 < len(b):
-                yield ('nest', bi, i)
+            # a guard whose terminator is what the block does anyway at its end: `if c: A; T` rest `T`  ->  `if c: A else: rest` `T`
+            if isinstance(st, ast.If) and not st.orelse and i + 1 < len(b) and isinstance(st.body[-1], (ast.Return, ast.Continue, ast.Raise)):
+                yield ('unguard', bi, i)
             if isinstance(st, ast.If) and st.orelse:
                 yield ('swap', bi, i)
                 # R3 un-nest: an if/else that ends the function (or a loop body) becomes guard + rest
@@ -1065,6 +1259,15 @@ def _candidates_all(f, ref_assigns=(), ref_locals=(), changed=None):
                     yield ('try_else_out', bi, i)
                 elif i + 1 < len(b):
                     yield ('try_else_in', bi, i)
+            # a local that is never read and whose value has no effect
+            if isinstance(st, ast.Assign) and len(st.targets) == 1 and isinstance(st.targets[0], ast.Name) and _pure_value(st.value):
+                yield ('drop_dead', bi, i)
+            # two neighbouring statements of which one only binds a constant / pure value to a local the other does not mention
+            if i + 1 < len(b) and (_movable(st, b[i + 1]) or _movable(b[i + 1], st)):
+                yield ('swap_adjacent', bi, i)
+            # (f if c else g)(args)  <->  if c: f(args) else: g(args)
+            if isinstance(st, ast.Expr) and isinstance(st.value, ast.Call) and isinstance(st.value.func, ast.IfExp):
+                yield ('ifexp_call_to_stmt', bi, i)
             # R14 single-use temporary
             if isinstance(st, ast.Assign) and len(st.targets) == 1 and isinstance(st.targets[0], ast.Name) and i + 1 < len(b):
                 yield ('inline_temp', bi, i)
@@ -1094,6 +1297,8 @@ def _candidates_all(f, ref_assigns=(), ref_locals=(), changed=None):
                     yield ('rename', c_, r_)
     k = 0
     for n in own_:
+        if isinstance(n, ast.Call) and len(n.args) == 1 and not n.keywords and isinstance(n.args[0], (ast.GeneratorExp, ast.ListComp)) and _consumes(n) and _near(changed, n):
+            yield ('comp_kind', k, 0)
         if flippable(n) and _near(changed, n):
             yield ('mirror', k, 0)
         if isinstance(n, ast.UnaryOp) and isinstance(n.op, ast.Not) and isinstance(n.operand, ast.BoolOp) and _near(changed, n):
@@ -1101,6 +1306,86 @@ def _candidates_all(f, ref_assigns=(), ref_locals=(), changed=None):
         if isinstance(n, ast.BoolOp) and _near(changed, n):
             yield ('demorgan_rev', k, 0)
         k += 1
+
+
+def _pure_value(e):
+    """evaluating e has no effect: constants, names, attribute chains, arithmetic / comparisons / containers of those"""
+    if isinstance(e, (ast.Constant, ast.Name)):
+        return True
+    if isinstance(e, ast.Attribute):
+        return _pure_value(e.value)
+    if isinstance(e, (ast.BinOp,)):
+        return _pure_value(e.left) and _pure_value(e.right)
+    if isinstance(e, ast.UnaryOp):
+        return _pure_value(e.operand)
+    if isinstance(e, ast.BoolOp):
+        return all(_pure_value(v) for v in e.values)
+    if isinstance(e, ast.Compare):
+        return _pure_value(e.left) and all(_pure_value(c) for c in e.comparators)
+    if isinstance(e, (ast.Tuple, ast.List, ast.Set)):
+        return all(_pure_value(x) for x in e.elts)
+    if isinstance(e, ast.Dict):
+        return all(k is not None and _pure_value(k) for k in e.keys) and all(_pure_value(v) for v in e.values)
+    return False
+
+
+def _movable(a, other):
+    """statement a is `local = <constant>` and `other` does not mention that local"""
+    if not (isinstance(a, ast.Assign) and len(a.targets) == 1 and isinstance(a.targets[0], ast.Name) and isinstance(a.value, ast.Constant)):
+        return False
+    t = a.targets[0].id
+    return not any(isinstance(x, ast.Name) and x.id == t for x in ast.walk(other)) and not any(isinstance(x, SCOPES) for x in ast.walk(other))
+
+
+def _consumes(call):
+    """the callee exhausts its single iterable argument at once, so a generator and a list give the same result"""
+    f = call.func
+    if isinstance(f, ast.Name) and f.id in ('tuple', 'list', 'set', 'frozenset', 'dict', 'sorted', 'sum', 'min', 'max', 'any', 'all', 'OrderedDict'):
+        return True
+    return isinstance(f, ast.Attribute) and f.attr in ('join', 'extend', 'update', 'union')
+
+
+def _falls_to(f, block, where):
+    """falling off the end of `block` reaches the function exit ('exit') / the head of the innermost loop ('loop') without executing anything else"""
+    if block is f.body:
+        return where == 'exit'
+    for n in own_nodes(f):
+        for fld in ('body', 'orelse', 'finalbody'):
+            if getattr(n, fld, None) is block:
+                if isinstance(n, (ast.For, ast.While, ast.AsyncFor)):
+                    return where == 'loop' and fld == 'body'
+                if isinstance(n, ast.Try) and (n.finalbody or (fld == 'body' and n.orelse)):
+                    return False
+                if isinstance(n, (ast.If, ast.Try, ast.With, ast.AsyncWith, ast.ExceptHandler)):
+                    # the statement owning this block must itself be last in its own block
+                    owner = n
+                    if isinstance(n, ast.ExceptHandler):
+                        owner = next((t for t in own_nodes(f) if isinstance(t, ast.Try) and n in t.handlers), None)
+                        if owner is None or owner.finalbody:
+                            return False
+                    for ob in _blocks(f):
+                        if ob and ob[-1] is owner:
+                            return _falls_to(f, ob, where)
+                    return False
+                return False
+    return False
+
+
+def _next_after(f, block):
+    """the statement executed right after falling off the end of `block` (None: unknown, loop head or function exit)"""
+    for n in own_nodes(f):
+        for fld in ('body', 'orelse'):
+            if getattr(n, fld, None) is block:
+                if not isinstance(n, (ast.If, ast.With, ast.AsyncWith)):
+                    return None
+                for ob in _blocks(f):
+                    for k, x in enumerate(ob):
+                        if x is n:
+                            if k + 1 < len(ob):
+                                return ob[k + 1]
+                            return _next_after(f, ob)
+                return None
+    return None
 
 
 def _generator(f):
@@ -1152,8 +1437,30 @@ def _reevaluable(f, e):
             if isinstance(n, ast.Call) and any(isinstance(a, ast.Name) and a.id == x for a in n.args) and not (isinstance(n.func, ast.Name) and n.func.id in ('len', 'zip', 'enumerate', 'isinstance', 'iter', 'list', 'tuple')):
                 return False
         return True
-    if isinstance(e, ast.BinOp) and isinstance(e.op, (ast.Add, ast.Sub)):
+    if isinstance(e, ast.BinOp):
         return _reevaluable(f, e.left) and _reevaluable(f, e.right)
+    if isinstance(e, ast.Compare):
+        return _reevaluable(f, e.left) and all(_reevaluable(f, c) for c in e.comparators)
+    if isinstance(e, ast.BoolOp):
+        return all(_reevaluable(f, v) for v in e.values)
+    if isinstance(e, ast.UnaryOp):
+        return _reevaluable(f, e.operand)
+    if isinstance(e, ast.Attribute):
+        # an attribute chain that this function never assigns (nor any prefix / extension of it)
+        if not _plain(e):
+            return False
+        ch = ast.unparse(e)
+        base = e
+        while isinstance(base, ast.Attribute):
+            base = base.value
+        if base.id != 'self' and not _reevaluable(f, base):
+            return False
+        for n in own_nodes(f):
+            if isinstance(n, ast.Attribute) and isinstance(n.ctx, (ast.Store, ast.Del)):
+                tx = ast.unparse(n)
+                if tx == ch or ch.startswith(tx + '.') or tx.startswith(ch + '.'):
+                    return False
+        return True
     return False
 
 
@@ -1202,7 +1509,7 @@ def _apply(f, cand, ref_assigns=()):
             for st in b:
                 if isinstance(st, ast.Assign) and len(st.targets) == 1 and st.targets[0] is stores[0]:
                     d = st
-        if d is None or isinstance(d.value, (ast.Name, ast.Constant)) or not _reevaluable(f, d.value):
+        if d is None or isinstance(d.value, ast.Name) or not _reevaluable(f, d.value):
             return False
         nested = any(isinstance(x, ast.Name) and x.id == t for n in ast.walk(f) if n is not f and isinstance(n, SCOPES + COMPS) for x in ast.walk(n))
         if nested:
@@ -1219,9 +1526,12 @@ def _apply(f, cand, ref_assigns=()):
             return False
         _rename(f, {a: i})
         return True
-    if kind in ('mirror', 'demorgan', 'demorgan_rev'):
+    if kind in ('mirror', 'demorgan', 'demorgan_rev', 'comp_kind'):
         n = own_nodes(f)[a]
-        if kind == 'mirror':
+        if kind == 'comp_kind':
+            g_ = n.args[0]
+            n.args[0] = (ast.ListComp if isinstance(g_, ast.GeneratorExp) else ast.GeneratorExp)(elt=g_.elt, generators=g_.generators)
+        elif kind == 'mirror':
             m = mirrored(n)
             n.left, n.ops, n.comparators = m.left, m.ops, m.comparators
         elif kind == 'demorgan':
@@ -1234,9 +1544,33 @@ def _apply(f, cand, ref_assigns=()):
         return True
     b = _blocks(f)[a]
     st = b[i]
-    if kind == 'nest':
-        st.orelse = b[i + 1:]
+    if kind == 'unguard':
+        T = st.body[-1]
+        last = b[-1]
+        explicit = last is not st and ast.dump(last) == ast.dump(T)
+        if explicit:
+            rest = b[i + 1:-1]
+            tail = [last]
+        else:
+            implicit = (isinstance(T, ast.Continue) and _falls_to(f, b, 'loop')) or (_bare_return(T) and _falls_to(f, b, 'exit'))
+            if not implicit:
+                nx = _next_after(f, b)
+                implicit = nx is not None and ast.dump(nx) == ast.dump(T)
+            if not implicit:
+                return False
+            rest = b[i + 1:]
+            tail = []
+        if not rest:
+            return False
+        head = st.body[:-1]
+        if head:
+            st.orelse = rest
+            st.body = head
+        else:
+            st.test = _negate_full(st.test)
+            st.body = rest
         del b[i + 1:]
+        b.extend(tail)
     elif kind == 'swap':
         st.test = _negate_full(st.test)
         st.body, st.orelse = st.orelse, st.body
@@ -1318,6 +1652,25 @@ def _apply(f, cand, ref_assigns=()):
             if hasattr(x, 'ctx'):
                 x.ctx = ast.Store()
         b[i:i + 1] = [ast.Assign(targets=st.targets, value=init), ast.For(target=tgt, iter=g.iter, body=body, orelse=[])]
+    elif kind == 'drop_dead':
+        t = st.targets[0].id
+        if t in params_of(f) or any(isinstance(x, ast.Name) and x.id == t and isinstance(x.ctx, ast.Load) for x in ast.walk(f)):
+            return False
+        del b[i]
+        if not b:
+            b.append(ast.Pass())
+    elif kind == 'swap_adjacent':
+        loc = set(ordered_locals(f))
+        a_, c_ = b[i], b[i + 1]
+        mv = a_ if _movable(a_, c_) else c_
+        if mv.targets[0].id not in loc:
+            return False
+        b[i], b[i + 1] = b[i + 1], b[i]
+    elif kind == 'ifexp_call_to_stmt':
+        c = st.value
+        e = c.func
+        mk = lambda fn: ast.Expr(value=ast.Call(func=fn, args=_copy.deepcopy(c.args), keywords=_copy.deepcopy(c.keywords)))
+        b[i] = ast.If(test=e.test, body=[mk(e.body)], orelse=[mk(e.orelse)])
     elif kind == 'try_else_out':
         rest, st.orelse = st.orelse, []
         b[i + 1:i + 1] = rest
@@ -1419,8 +1772,10 @@ def towards(f, ref_text, budget=300, seconds=2.0):
             if isinstance(n, ast.Assign) and len(n.targets) == 1 and isinstance(n.targets[0], ast.Name) and not isinstance(n.value, (ast.Name, ast.Constant)):
                 ref_assigns.append((n.targets[0].id, ast.unparse(n.value)))
         ref_locals = ordered_locals(rf)
+        ref_tests = set(tests_of(rf))
     except SyntaxError:
         ref_locals = []
+        ref_tests = set()
     start = _lines(f)
     d0 = _dist(start, ref_lines)
     if d0 == 0:
@@ -1447,6 +1802,10 @@ def towards(f, ref_text, budget=300, seconds=2.0):
             try:
                 if not _apply(g, cand, ref_assigns):
                     continue
+                ast.fix_missing_locations(g)
+                sh = _Shape({g.name: ref_tests})
+                sh.prefix = ''
+                g = sh.visit(g)
                 ast.fix_missing_locations(g)
                 ls = _lines(g)
             except Exception:
